@@ -286,15 +286,20 @@ def rule_snell(ctx):
            "0 for every incidence angle (no clipping: beyond total reflection arcsin yields NaN, not 90 degrees)", node=f.node, func=f,
            witness=None if v else info)
     ctx.models.append({"rule": "C08.snell", "identity": "snell", "verdict": bool(v), "cases": 1})
-    # complex result -> NaN
-    ok = False
-    for st in f.body:
-        if isinstance(st, ast.If) and "isreal" in norm(st.test) and len(st.body) == 1 and isinstance(st.body[0], ast.Assign):
-            tgt = norm(st.body[0].targets[0])
-            val = norm(st.body[0].value)
-            rets = [s for s in f.body if isinstance(s, ast.Return)]
-            if val in ("np.nan", "float('nan')", "numpy.nan") and rets and tgt in norm(rets[-1].value) and norm(st.test).startswith("not "):
-                ok = True
+    # complex result -> NaN: every return reachable when the refraction angle is not all real yields NaN
+    sflow = Flow(f)
+    tests = [str(norm(st.test)) for st in sflow.stmts if isinstance(st, ast.If) and "isreal" in str(norm(st.test)) and "theta2" in str(norm(st.test))]
+    if not tests:
+        raise AnalysisError("snell: the test for a complex refraction angle was not found")
+    asm = {}
+    for t_ in tests:
+        neg = t_.startswith("not ")
+        asm[t_] = True if neg else False
+        asm[t_[4:] if neg else "not " + t_] = False if neg else True
+    rets_c = [r_ for r_ in sflow.stmts if isinstance(r_, ast.Return) and r_.value is not None and sflow.live_under(r_, asm)]
+    NAN = ("np.nan", "float('nan')", "numpy.nan", "math.nan")
+    vals_c = [str(norm(sflow.resolve_under(r_.value, asm, at=r_, depth=3))) for r_ in rets_c]
+    ok = bool(rets_c) and all(v_ in NAN or any(v_ == "%s(%s)" % (w_, n_) for w_ in ("np.rad2deg", "np.degrees") for n_ in NAN) for v_ in vals_c)
     ctx.ob("snell.nan", ok, "complex refraction angle mapped to NaN before the return: %s" % ok,
            "`if not all(isreal(theta2)): theta2 = nan`", node=f.node, func=f)
     return ev, (n1, n2, th)
